@@ -77,8 +77,19 @@ package taskctl
 //@   loop 2 invariant [cancel] !$wgWaited && ($selfCancel || s.cancelled != 1)
 
 //@ func interface (github.com/Flowpack/prunner/taskctl.OutputStore).Remove
-//@   ensures [removed] $logsRemoved[jobID]
-//@   modifies $logsRemoved@[jobID]
+//@   ensures [removed] res == nil ==> $logsRemoved[jobID]
+//@   ensures [failed] res != nil ==> $logsRemoveFailed[jobID]
+//@   modifies $logsRemoved@[jobID], $logsRemoveFailed@[jobID]
+
+// The file implementation: the logs of a job are the directory <path>/<jobID> (Writer creates it, buildPath puts
+// every log file below it); Remove succeeds only if nothing is left at that path.
+//@ func (*FileOutputStore).Remove
+//@   safety
+//@   lockmode any
+//@   requires [nonnil] s != nil
+//@   ensures [C12.logDir] res == nil ==> $fsState[pathJoin(s.path, jobID)] == 0
+//@   ensures [C12.logDirOnly] forall q string :: q != pathJoin(s.path, jobID) ==> $fsState[q] == old($fsState[q])
+//@   modifies $fsState
 
 // ---------------------------------------------------------------------------------------
 // Stage readiness (C02, C08)
@@ -128,3 +139,4 @@ package taskctl
 //@   ensures  [C08.successVerdict] res == nil ==> t.Errored == old(t.Errored) && t.Error == old(t.Error)
 //@   loop 1 invariant [untouched] t.Errored == old(t.Errored) && t.Error == old(t.Error)
 //@ property C08: taskctl.(*TaskRunner).execute/ensures* taskctl.(*TaskRunner).execute/loop* taskctl.(*Scheduler).Schedule$1/ensures*
+//@ property C12: taskctl.(*FileOutputStore).Remove/*
